@@ -59,6 +59,14 @@ Theorem C15_close : forall f, In f proto_files -> close_ok f = true.
 Proof. intros f Hf. exact (proj1 (forallb_forall _ _) close_all f Hf). Qed.
 Print Assumptions C15_close.
 
+(* A mutex is a blocking point for everybody else (UnregisterProtocol, the muxer's own cleanup, Stop):
+   every function that locks one releases it on every return path (generated path table, go/ast
+   abstract execution over if/switch/select/loops, deferred unlocks, acquire/release wrappers).
+   `unreleased` lists the offending (file, function, mutex, exit). *)
+Theorem C15_locks_released : unreleased locks = [].
+Proof. vm_compute. reflexivity. Qed.
+Print Assumptions C15_locks_released.
+
 (* non-vacuity / the dead-guard distinction: the same select is guarded in
    an API call and unguarded inside a message handler *)
 Example C15_dead_guard :
